@@ -124,7 +124,7 @@ def run(prog, rep, tier='quick'):
                             continue
                         e = ins[-1]
                         elem, r0 = e[5], tonum(e[4])
-                        ksyms = [s_ for s_ in (elem.sz.free_symbols if elem.sz is not None else []) if str(s_).startswith('k@')]
+                        ksyms = [s_ for s_ in (elem.sz.free_symbols if elem.sz is not None else []) if s_.name in Aff.BOUNDS]      # the loop variable of the lag loop, whatever it is called
                         want = {'biased': 1 / NS, 'coeff': sp.Integer(1), None: sp.Integer(1)}.get(norm)
                         ok = None
                         detail = 'lag-k signature %s, lag-0 signature %s' % (elem.sz, r0.sz if r0 is not None else None)
